@@ -315,7 +315,7 @@ func (p *Parser) parseBuffer(buf []byte, last bool) error {
 			continue
 		case closeObject:
 			depth--
-			if depth < 0 || 0 <= p.starts[depth] {
+			if depth < 0 || 0 <= p.starts[depth] || (256 < len(p.mode) && p.mode[256] == 'v') { // no value after the colon
 				return p.newError(off, "unexpected object close")
 			}
 			if 256 < len(p.mode) && p.mode[256] == 'n' {
